@@ -60,6 +60,10 @@ CHECKS = {
              text="Thousands of responses (0-90 records of 1-400 octets, OPT absent / at a random position / with options, question absent) are packed by the real Msg.Pack under limits {0 < size < 512, 512, 1232, 4096, 65535, exact length, length +-1, half, random}, with and without compression; TLC decodes each result with the specification decoder and checks the limit max(512, size), clean decoding with counts equal to records present, TC iff something was omitted, nothing omitted when the uncompressed encoding fits, question and OPT kept, and that kept answers/authorities are an unmodified subsequence.",
              note="Checked at Msg.Pack; listener-level size selection is exercised by the router driver.",
              ref="DESIGN.md section 4 C09"),
+ "C13": dict(technique="TLA+ model of the gnet reassembler over all-or-nothing Conn.Next, in-flight limit and atomic response frames (TLC exhaustive over every segmentation and handler completion order of 3 frames) + TLC-enumerated cut-point sets driven through the real tcp/gnet/tls listeners + TLC trace validation that parses the raw return stream with the Wire specification",
+             text="TLC exhausts the reassembler state machine (buffer/readN/readingHdr) for every delivery segmentation of three frames and every handler completion order with limits 1 and 2 (decoded exactly once in order, one response per query, over-limit queries refused not dropped) and rejects a sticky-header variant; all 4096 sets of cut-point classes (inside the prefix, between prefix and body, inside the body, at the frame end; quick: a seeded 1/27 sample) plus byte-at-a-time, single-write and random cuts of 2-8 (thorough: 50) pipelined queries are written to the real tcp, gnet and tls listeners while the scripted upstream finishes handlers out of order; TLC splits each recorded return stream into frames, decodes every body with Wire.tla and checks exact framing, exactly one response per query ID, the echoed question per ID (no interleaving) and REFUSED only beyond max_concurrent_queries.",
+             note="Kernel coalescing of segments costs coverage only.",
+             ref="DESIGN.md section 4 C13"),
 }
 
 PENDING_REASON = "check under construction in this round (see DESIGN.md section 4); not claimed until its machinery is committed and passes on the unchanged tree"
